@@ -5,7 +5,7 @@ from .c03 import slab_field, liveness_check
 
 EXPLANATION = (
     "Static decision on the MIR of /repo's working tree: (R-C08-save) in handle_disconnection, on the persistent (!connection.clean) edge the waiters returned by DataLog::clean(id) are re-registered in the tracker, "
-    "the tracker's requests are rewound from Outgoing::retransmission_map() before Graveyard::save_state, and save_state receives the removed connection's tracker, subscriptions and unacked_pubrels; "
+    "that re-registration dominates the rewind loop (so parked requests are rewound as well), the tracker's requests are rewound from Outgoing::retransmission_map() before Graveyard::save_state, and save_state receives the removed connection's tracker, subscriptions and unacked_pubrels; "
     "every path past the removal ends in save_state or save_metrics; "
     "(R-C08-restore) in handle_new_connection ConnAck.session_present = !clean_session && <saved session exists>, the tracker handed to the scheduler is the saved one only on the !clean_session edge "
     "(Tracker::new on the clean edge), and the restoring closure puts back subscriptions and unacked_pubrels; "
@@ -90,6 +90,7 @@ def save(ctx, prog):
     # (1) waiters re-registered
     cleans = calls_in(r"DataLog::clean$")
     reg_ok = False
+    reg_bbs = []
     for bb, t in calls_in(r"Iterator::for_each$", region):
         src = flatten_src(provenance(body, t["args"][0], through_calls=[r"IntoIterator::into_iter$|into_iter$"]))
         from_clean = any(s.kind == "call" and s.path.endswith("DataLog::clean") for s in src)
@@ -101,6 +102,7 @@ def save(ctx, prog):
                 calls_reg = True
         if from_clean and calls_reg and dominates(body, bb, sv_bb):
             reg_ok = True
+            reg_bbs.append(bb)
     if reg_ok:
         ctx.ok(rule, body.id, "waiters returned by DataLog::clean are re-registered in the tracker before save_state")
     else:
@@ -122,6 +124,14 @@ def save(ctx, prog):
     else:
         ctx.violation(rule, body.id, "no rewind",
                       "the saved tracker's cursors are not rewound to the oldest unacknowledged forward (retransmission_map) before save_state", site=body.loc(sv.get("sp")))
+    # (2b) the rewind must see every request: parked requests are put back before the rewind loop starts
+    if reg_bbs and it:
+        if all(dominates(body, r, i[0]) for r in reg_bbs for i in it):
+            ctx.ok(rule, body.id, "parked requests are re-registered before the rewind loop, so they are rewound too")
+        else:
+            ctx.violation(rule, body.id, "rewind before re-registration",
+                          "the rewind loop over tracker.data_requests runs before the parked (caught-up) requests are put back: those keep their advanced cursor and unacknowledged forwards on their filters are not re-sent after resume",
+                          site=body.loc(body.blocks[it[0][0]]["t"].get("sp")))
     # (3) save_state arguments
     def from_removed(op, field, fieldname):
         src = flatten_src(provenance(body, op))
